@@ -185,7 +185,7 @@ def emit_states(cfg="MC_JSONMachine_cover.cfg"):
 
 # --------------------------------------------------------------------- harness
 def run_gen(vh, family, tier, seed, shards=None, states=None, walks=None, only=None, extra_env=None,
-            timeout=3000, extra_args=None):
+            timeout=3000, extra_args=None, halt_rc=None):
     out = os.path.join(workdir(), "ev_%s_%d" % (family, int(time.time() * 1000) % 100000))
     os.makedirs(out)
     cmd = ["timeout", str(timeout), vh, "gen", family, "-out", out, "-shards", str(shards or NCPU), "-tier", tier,
@@ -206,6 +206,8 @@ def run_gen(vh, family, tier, seed, shards=None, states=None, walks=None, only=N
     hang = os.path.join(out, "HANG")
     if os.path.exists(hang):
         return {"dir": out, "hang": open(hang).read(), "stderr": p.stderr}
+    if halt_rc is not None and p.returncode == halt_rc:
+        return {"dir": out, "halted": True, "files": [], "stderr": p.stderr}
     if p.returncode != 0:
         raise Infra("harness gen %s failed rc=%d:\n%s" % (family, p.returncode, (p.stdout + p.stderr)[-4000:]))
     stats = json.load(open(os.path.join(out, family + ".stats.json")))
